@@ -17,9 +17,13 @@ package main
 import (
 	"bytes"
 	"fmt"
+	"io"
+	"net"
 	"reflect"
 	"strconv"
 	"strings"
+	"sync"
+	"time"
 
 	. "verif/harness/codecio"
 	. "verif/harness/hlib"
@@ -100,6 +104,129 @@ func execFrames(max int, chunks [][]byte) string {
 
 const msgChanCap = 32
 
+// ---- readLoop on a scripted connection ----------------------------------------------------------------------
+
+// scriptConn hands out the chunks one Read at a time (never more than the caller's buffer), then reports that
+// the peer has gone idle and blocks until it is closed.
+type scriptConn struct {
+	mu     sync.Mutex
+	chunks [][]byte
+	idle   chan struct{}
+	closed chan struct{}
+	once   sync.Once
+	conce  sync.Once
+}
+
+type dummyAddr struct{}
+
+func (dummyAddr) Network() string { return "tcp" }
+func (dummyAddr) String() string  { return "10.0.0.1:6000" }
+
+func (c *scriptConn) Read(p []byte) (int, error) {
+	c.mu.Lock()
+	for len(c.chunks) > 0 && len(c.chunks[0]) == 0 {
+		c.chunks = c.chunks[1:]
+	}
+	if len(c.chunks) > 0 {
+		n := copy(p, c.chunks[0])
+		c.chunks[0] = c.chunks[0][n:]
+		c.mu.Unlock()
+		return n, nil
+	}
+	c.mu.Unlock()
+	c.once.Do(func() { close(c.idle) })
+	<-c.closed
+	return 0, io.EOF
+}
+func (c *scriptConn) Write(p []byte) (int, error)        { return len(p), nil }
+func (c *scriptConn) Close() error                       { c.conce.Do(func() { close(c.closed) }); return nil }
+func (c *scriptConn) LocalAddr() net.Addr                { return dummyAddr{} }
+func (c *scriptConn) RemoteAddr() net.Addr               { return dummyAddr{} }
+func (c *scriptConn) SetDeadline(t time.Time) error      { return nil }
+func (c *scriptConn) SetReadDeadline(t time.Time) error  { return nil }
+func (c *scriptConn) SetWriteDeadline(t time.Time) error { return nil }
+
+// execReadLoop runs the REAL readLoop (bufio reader, readData, connection buffer, decodeData, msgChan) over the
+// scripted reads and reports the frames that have been handed over by the time the peer goes idle — a frame the
+// node has fully received must not wait for further traffic — then closes the connection.
+func execReadLoop(max int, chunks [][]byte) string {
+	cfg := gnet.NewConfig()
+	cfg.MaxIncomingMessageLength = max
+	cfg.ReadTimeout = 0
+	sc := &scriptConn{chunks: chunks, idle: make(chan struct{}), closed: make(chan struct{})}
+	msgC := make(chan []byte, msgChanCap)
+	qc := make(chan struct{})
+	var mu sync.Mutex
+	var got []string
+	consumed := make(chan struct{})
+	go func() {
+		defer close(consumed)
+		for d := range msgC {
+			mu.Lock()
+			got = append(got, Hex(d))
+			mu.Unlock()
+		}
+	}()
+	done := make(chan error, 1)
+	go func() {
+		defer func() {
+			if r := recover(); r != nil {
+				done <- fmt.Errorf("panic: %v", r)
+			}
+		}()
+		done <- gnet.VerifReadLoop(cfg, sc, msgC, qc)
+	}()
+	snapshot := func() []string {
+		// everything handed to msgChan so far has been taken by the consumer
+		for i := 0; i < 200; i++ {
+			if len(msgC) == 0 {
+				break
+			}
+			time.Sleep(time.Millisecond)
+		}
+		time.Sleep(2 * time.Millisecond)
+		mu.Lock()
+		defer mu.Unlock()
+		return append([]string{}, got...)
+	}
+	var atIdle []string
+	var endErr error
+	ended := false
+	select {
+	case <-sc.idle:
+		atIdle = snapshot()
+	case endErr = <-done:
+		ended = true
+		atIdle = snapshot()
+	case <-time.After(10 * time.Second):
+		return "hang"
+	}
+	sc.Close()
+	if !ended {
+		select {
+		case endErr = <-done:
+		case <-time.After(10 * time.Second):
+			return "hang"
+		}
+	}
+	<-consumed // readLoop closes msgChan when it returns
+	mu.Lock()
+	late := len(got) - len(atIdle)
+	mu.Unlock()
+	if endErr != nil && strings.HasPrefix(endErr.Error(), "panic: ") {
+		return endErr.Error()
+	}
+	fs := "."
+	if len(atIdle) > 0 {
+		fs = strings.Join(atIdle, "+")
+	}
+	end := "idle"
+	if ended {
+		end = "err " + ErrName(endErr, reasons)
+	}
+	return fs + "|late=" + strconv.Itoa(late) + "|end=" + end
+}
+
 func execConv(b []byte) string {
 	m, err := gnet.VerifConvertToMessage(1, b)
 	if err != nil {
@@ -115,6 +242,8 @@ func c22Exec(op string) string {
 		return execFrames(int(PI64(f[1])), parseChunks(f[2]))
 	case "conv":
 		return execConv(ParseBytes(f[1]))
+	case "readloop":
+		return execReadLoop(int(PI64(f[1])), parseChunks(f[2]))
 	}
 	panic("harness: unknown op " + f[0])
 }
@@ -247,6 +376,47 @@ func c22Gen(r *Rng, tier string, emit func(string)) {
 				cs = append(cs, stream[o:e])
 			}
 			frames(max, cs)
+		}
+		// the real readLoop (bufio + readData + buffer + decodeData + msgChan) over scripted reads of a well-formed
+		// stream, optionally followed by the beginning of one more message; every frame fully received must have
+		// been handed over when the peer goes idle, whatever the read sizes (multiples of readData's 1024-byte and
+		// bufio's 4096-byte buffers included)
+		if i%3 == 0 {
+			long := append([]byte{}, stream...)
+			if i%6 == 0 {
+				// at most 30 frames in all: readLoop's hand-over to the 32-slot msgChan never blocks, it DISCONNECTS
+				// when the queue is full, and the property is stated for a queue that does not overflow
+				want := 4200 + r.Intn(3000)
+				for n := nm; len(long) < want && n < 30; {
+					if m := randomMessage(r); len(m) >= 200 || r.Chance(10) {
+						long = append(long, m...)
+						n++
+					}
+				}
+			}
+			rl := func(cs [][]byte) { emit("readloop " + strconv.Itoa(defMax) + " " + chunkStr(cs)) }
+			rl([][]byte{long})
+			rl(cutAt(long, randomCuts(r, len(long), r.Range(1, 6))))
+			for _, sz := range []int{1024, 2048, 4096, 1023, 1025} {
+				if len(long) > sz {
+					var cs [][]byte
+					for o := 0; o < len(long); o += sz {
+						e := o + sz
+						if e > len(long) {
+							e = len(long)
+						}
+						cs = append(cs, long[o:e])
+					}
+					rl(cs)
+				}
+			}
+			for kk := 1; kk <= 4; kk++ {
+				if len(long) > 1024*kk {
+					rl(cutAt(long, []int{len(long) - 1024*kk})) // the last read is exactly kk*1024 bytes
+				}
+			}
+			tail := randomMessage(r)
+			rl(cutAt(append(append([]byte{}, long...), tail[:r.Intn(len(tail))]...), randomCuts(r, len(long), r.Range(0, 3))))
 		}
 		// a bad length prefix spliced in after the k-th message
 		k := r.Intn(nm + 1)
